@@ -102,6 +102,12 @@ def render_expr(e, ctx, lang):
         return render_field(e, ctx)
     if t in ('NR', 'NF', 'NU', 'bNR', 'aNR'):
         return t
+    if t == 'str' and len(e) > 2 and len(e[2]) == 3:
+        # Python only: a triple-quoted literal; its own quote character may occur unescaped inside (never three in a row, never at the end)
+        if lang != 'py':
+            raise ValueError('triple-quoted literal in %s' % lang)
+        body = e[1].replace('\\', '\\\\').replace('\n', '\\n').replace('\r', '\\r').replace('\t', '\\t')
+        return e[2] + body + e[2]
     if t == 'str':
         txt = lit(e[1], e[2] if len(e) > 2 else "'")
         if len(e) > 3 and e[3] == 'rawtab':
@@ -191,6 +197,8 @@ def is_neutral(e):
         return all(is_neutral(v) for v in e.values())
     if not isinstance(e, list):
         return True
+    if e and e[0] == 'str' and len(e) > 2 and isinstance(e[2], str) and len(e[2]) == 3:
+        return False
     if e and isinstance(e[0], str) and e[0] in ('int_of', 'float_of', 'pymax', 'pymin', 'pysum', 'pymaxl', 'pybuiltin', 'floordiv', 'fstr'):
         return False
     return all(is_neutral(x) for x in e)
@@ -371,6 +379,13 @@ def _vary_spaces(text, rng, lang):
                 continue
             if c == quote:
                 quote = None
+        elif c in '"\'' and text[i:i + 3] == c * 3 and lang == 'py':
+            # a triple-quoted Python literal: copied verbatim up to its closing triple
+            j = text.find(c * 3, i + 3)
+            j = n if j < 0 else j + 3
+            out.append(text[i:j])
+            i = j
+            continue
         elif c in '"\'`':
             quote = c
             out.append(c)
